@@ -202,6 +202,14 @@ class VLoop(asyncio.BaseEventLoop):
                 self._vtime = t
         return pred() if pred is not None else True
 
+    def run_steps(self, n):
+        """Exactly n loop steps (ready callbacks / timer pops); returns how many were possible."""
+        done = 0
+        with self.running():
+            while done < n and self.step():
+                done += 1
+        return done
+
     def run_for(self, dt, pred=None):
         return self.run_until(self._vtime + dt, pred)
 
